@@ -50,7 +50,9 @@ def interleavings(n1, n2):
 
 
 def shards(tier):
-    return e1.std_shards(tier)
+    # the 10x10 contranominal scale: concepts with 9 neighbours met in mid-traversal
+    return e1.std_shards(tier, with_p=True, with_big=True) + \
+        ([('W', 'contranominal', 10)] if tier == 'quick' else [])
 
 
 def check_case(case, ctr):
@@ -111,7 +113,17 @@ def check_case(case, ctr):
     if any(len(ref.upper_covers(i)) > 1 for i in range(k)) and k > 3:
         ctr['hit_diamond'] += 1
 
-    colls = [()] + [(i,) for i in range(k)] + list(itertools.product(range(k), repeat=2))
+    if k <= 40:
+        colls = [()] + [(i,) for i in range(k)] + list(itertools.product(range(k), repeat=2))
+    else:
+        colls = [()] + [(i,) for i in range(k)]
+        for i in (range(k) if k <= 200 else ()):
+            colls += [(i, j) for j in sorted({0, k - 1, i, k - 1 - i} | set(ref.upper_covers(i))
+                                             | set(ref.lower_covers(i)))]
+    # many distinct seeds, with and without the bounds
+    colls += [tuple(range(1, k - 1)), tuple(range(k - 1)), tuple(range(1, k))]
+    if k > 18:
+        colls += [tuple(range(1, 18)), tuple(range(k - 18, k - 1))]
     if k <= TRIPLE_LIMIT[0]:
         colls += list(itertools.product(range(k), repeat=3))
     elif k <= 8:
@@ -130,7 +142,7 @@ def check_case(case, ctr):
         eu = set().union(*(ups[i] for i in coll)) if coll else set()
         ed = set().union(*(downs[i] for i in coll)) if coll else set()
         seeds = [al[i] for i in coll]
-        for choice in range(env.n_orders(distinct)):
+        for choice in range(min(env.n_orders(distinct), 24)):
             env.SeamSet.choice = choice
             ctr['calls'] += 2
             if not judge(list(lat.upset_union(seeds)), eu, 'index', 'upset_union',
@@ -143,7 +155,7 @@ def check_case(case, ctr):
     ctr['hit_seam'] += env.SeamSet.hits - hits0
     # the seeds are those passed when the call is made (caller reuses its scratch list)
     if k >= 2 and not V:
-        for i in range(k):
+        for i in range(min(k, 64)):
             scratch = [al[i], al[(i + 1) % k]]
             gu, gd = lat.upset_union(scratch), lat.downset_union(scratch)
             scratch.clear()
